@@ -756,6 +756,7 @@ pub fn explore(prop: &str, seed: u64, thorough: bool, st: &mut Stats) -> Vec<Rep
         };
         let rs = rng.next_u64();
         let o = run_scen(&sc, &strat, rs, None);
+        crate::driver::chain(o.digest);
         st.runs += 1;
         st.steps += o.steps;
         st.switches += o.switches;
